@@ -676,8 +676,8 @@ func JudgeC01(w *Workload, dir string, truth []LineTruth, obs *Observed) []Findi
 				}
 				wantC := w.Classes[i][n]
 				switch wantC {
-				case 'E':
-					wantC = 'I' // empty key counts as ignored
+				case 'E', 'J':
+					wantC = 'I' // empty key counts as ignored; J is ignored by the third rule
 				case 'W':
 					wantC = 'M' // whitespace-only ignore result is not truthy
 				}
